@@ -12,7 +12,25 @@ def seeds_table():
         conf = m.get("confirmed_by_me", {})
         rows.append(f"| {name} | {m.get('summary','').replace('|','/')[:150]} | {m.get('needs','').replace('|','/')[:120]} | {m.get('caught_by','-')} | {m.get('detection','?')} | {'yes' if conf.get('confirmed') else '?'} |")
     head = "| seed | change | needs to manifest | caught by | first run | confirmed |\n|---|---|---|---|---|---|\n"
-    return head + "\n".join(rows)
+    # first-run statistics per round (a seed counts as caught only if the check of ITS OWN property named it when it arrived)
+    import collections
+    stats = {1: collections.Counter(), 2: collections.Counter()}
+    for name in sorted(os.listdir(f"{V}/seeded")):
+        mp = f"{V}/seeded/{name}/meta.json"
+        if os.path.exists(mp):
+            m = json.load(open(mp))
+            stats[2 if "-r2-" in name else 1][(name.split("-")[0], m.get("detection"))] += 1
+    lines = []
+    for rnd in (1, 2):
+        c = stats[rnd]
+        props = sorted({k[0] for k in c})
+        per = ", ".join(f"{p_} {c[(p_, 'caught')]}/{c[(p_, 'caught')] + c[(p_, 'missed')]}" for p_ in props)
+        tot_c = sum(v for k, v in c.items() if k[1] == "caught")
+        tot = sum(c.values())
+        lines.append(f"* round {rnd}: **{tot_c} of {tot}** caught at first run ({per})")
+    summary = "First-run detection (before any rule was added for the seed):\n\n" + "\n".join(lines) + \
+        "\n\nAfter the strengthening recorded in the table every seed is caught by the check of its own property (`./check --selftest`).\n\n"
+    return summary + head + "\n".join(rows)
 def findings_table():
     k = json.load(open(f"{V}/known_findings.json"))["findings"]
     fixed = {}
